@@ -224,7 +224,7 @@ func checkStanza(s stz) *nd.Violation {
 
 var errTypes = []stanza.ErrorType{"", stanza.Cancel, stanza.Auth, stanza.Continue, stanza.Modify, stanza.Wait}
 var conds = []stanza.Condition{"", stanza.BadRequest, stanza.ItemNotFound, stanza.UndefinedCondition, stanza.ServiceUnavailable}
-var textLangs = []string{"", "en", "de"}
+var textLangs = []string{"", "en", "de", "en-US"}
 var maxTexts = 2
 
 func normErr(e stanza.Error) string {
